@@ -210,6 +210,8 @@ LEAVES = [
     ("&#38;", ("Char", "", (), "38", ())),
     ("&#x26;", ("Char", "", (), "x26", ())),
     ("&amp;", ("Entity", "", (), "amp", ())),
+    ("&apos;", ("Entity", "", (), "apos", ())),  # an HTML5-only name
+    ("<![INCLUDE [ a ]]>", ("MarkedSection", "", (), "INCLUDE [ a ", ())),  # white space between the keyword and the bracket
     ("<br>", ("VoidTag", "br", (), None, ())),
     ('<img k="v">', ("VoidTag", "img", (("k", "v"),), None, ())),
     ("<a/>", ("XTag", "a", (), None, ())),
